@@ -17,11 +17,13 @@ theorem next_eq_sd (s : BollingerBands F) (x : F) (sd' : StandardDeviation F) (v
               upper := Scalar.add sd'.m (Scalar.mul v s.multiplier),
               lower := Scalar.sub sd'.m (Scalar.mul v s.multiplier) }) := by
   unfold next
+  try simp only [gen_helper]
   simp [h, StandardDeviation.mean]
 
 /-- `next` panics exactly when the component does -/
 theorem next_none_sd (s : BollingerBands F) (x : F) (h : s.sd.next x = none) : s.next x = none := by
   unfold next
+  try simp only [gen_helper]
   simp [h]
 
 theorem next_total (s : BollingerBands F) (x : F) (h : WF s) :
@@ -31,6 +33,7 @@ theorem next_total (s : BollingerBands F) (x : F) (h : WF s) :
 
 theorem nextBar_eq (s : BollingerBands F) (b : Bar F) : s.nextBar b = s.next b.close := by
   unfold nextBar
+  try simp only [gen_helper]
   cases h : s.next b.close <;> simp [h]
 
 end TaRs.Gen.BollingerBands
